@@ -52,7 +52,10 @@ def stats_json(stats):
     return out
 
 
-def record_run(params: dict, *, tid: int, workload=None, exact=None, mode="obs", U=None, meta=None, policy_key=None, sparse=False, ret_ctx=False, holder=None, lean=False):
+STARTER_NAME = "VerifStarter"
+
+
+def record_run(params: dict, *, tid: int, workload=None, exact=None, mode="obs", U=None, meta=None, policy_key=None, sparse=False, ret_ctx=False, holder=None, lean=False, distract=None, boost=None, kills=None):
     """Run run_simulator(params, workload) and return (events, stats_or_None, exception_or_None)."""
     common.import_repo()
     from eudoxia.simulator import run_simulator, parse_args_with_defaults
@@ -90,7 +93,7 @@ def record_run(params: dict, *, tid: int, workload=None, exact=None, mode="obs",
                "oc": bool(full["allow_memory_overcommit"]), "multi": bool(full["multi_operator_containers"]),
                "tps": tps, "U": U, "mode": mode, "suspNum": tps, "suspDen": 20 * U,
                "minOneTick": True, "minSuspTick": True, "checkPool": True, "reconcileOnSuspend": True, "requeueShortSuspension": True,
-               "policy": "starter" if algo == "verifstarter" else algo, "duration_ticks": int(full["duration"] * tps),
+               "policy": "starter" if algo == STARTER_NAME else algo, "duration_ticks": int(full["duration"] * tps),
                "dur": ratio(full["duration"])[1]}
         events.insert(0, {"ev": "hdr", "tid": tid, "mode": mode, "cfg": cfg, "wl": [], "meta": meta or {"d": "-"}})
 
@@ -100,6 +103,18 @@ def record_run(params: dict, *, tid: int, workload=None, exact=None, mode="obs",
             self.t = 0
 
         def run_one_tick(self):
+            if distract is not None and self.t == distract:
+                # another simulation is being set up in this process while this one is running (e.g. a workload that builds a scratch
+                # Executor to read the cluster's capacity): it must not disturb this one
+                from eudoxia.executor import Executor as _Ex
+                _Ex(num_pools=1, cpus_per_pool=2, ram_gb_per_pool=4.0, ticks_per_second=tps)
+            if kills is not None and st["ex"] is not None and kills.random() < 0.08:
+                # somebody kills a live container from outside (the public Container.kill) between two ticks
+                live = [c for R in st["ex"].pools for c in R.active_containers if not c.is_completed()]
+                if live:
+                    c = kills.choice(live)
+                    c.kill("evicted")
+                    events.append({"ev": "kill", "tid": tid, "t": self.t, "cid": cids.get(c.container_id), "err": "evicted", "obs": {"ost": idx.ost()}})
             ps = self.inner.run_one_tick()
             st["arrived_now"] = []
             for p in ps:
@@ -167,6 +182,11 @@ def record_run(params: dict, *, tid: int, workload=None, exact=None, mode="obs",
             events.append({"ev": "round", "tid": tid, "t": st["t"], "new": list(st["arrived_now"]), "results": res_json(results),
                            "pre": pre, "sus": [], "asg": [], "obs": {"ost": idx.ost()}, "raised": f"{type(e).__name__}: {str(e)[:100]}"})
             raise
+        if boost is not None:
+            # the priority of a container is the scheduler's choice (an external policy may run everything at QUERY): the simulator's
+            # per-class statistics are about PIPELINES
+            for a in asg:
+                a.priority = boost.choice(list(type(a.priority)))
         if sparse and not sus and not asg and not results and not pipelines:
             return sus, asg
         if lean:
@@ -206,7 +226,7 @@ def record_run(params: dict, *, tid: int, workload=None, exact=None, mode="obs",
                                   "oc": bool(full["allow_memory_overcommit"]), "multi": bool(full["multi_operator_containers"]),
                                   "tps": tps, "U": U, "mode": mode, "suspNum": tps, "suspDen": 20 * U,
                                   "minOneTick": True, "minSuspTick": True, "checkPool": True, "reconcileOnSuspend": True, "requeueShortSuspension": True,
-                                  "policy": "starter" if algo == "verifstarter" else algo, "duration_ticks": int(full["duration"] * tps), "dur": ratio(full["duration"])[1]}})
+                                  "policy": "starter" if algo == STARTER_NAME else algo, "duration_ticks": int(full["duration"] * tps), "dur": ratio(full["duration"])[1]}})
     pipes = [[(-1 if p.runtime_status().arrival_tick is None else p.runtime_status().arrival_tick),
               (-1 if p.runtime_status().finish_tick is None else p.runtime_status().finish_tick)] for p in idx.pipes]
     end = {"ev": "end", "tid": tid, "t": st["t"], "stats": stats_json(stats) if stats is not None else {"none": 1},
